@@ -2,9 +2,52 @@
 
 package cipher
 
-import "sync"
+import (
+	"sync"
+	"time"
+)
 
 // VerifReset drops the process-wide key cache between executions.
 func VerifReset() {
 	blockCipherCache = sync.Map{}
+}
+
+// VerifCachedKeys returns the three keys the cache hands out for (password, now).
+func VerifCachedKeys(password string, now time.Time) (keys [3][DefaultKeyLen]byte, err error) {
+	e, err := getCachedCiphers(password, now)
+	if err != nil {
+		return keys, err
+	}
+	for i, c := range e.cipherList {
+		keys[i] = c.key
+	}
+	return keys, nil
+}
+
+// VerifFreshKeys derives the three keys for now without touching the cache.
+func VerifFreshKeys(password string, now time.Time) (keys [3][DefaultKeyLen]byte, err error) {
+	l, err := newBlockCipherList([]byte(password), now)
+	if err != nil {
+		return keys, err
+	}
+	for i, c := range l {
+		keys[i] = c.key
+	}
+	return keys, nil
+}
+
+// VerifTryDecryptAt runs the decryptor's lookup for an explicit instant.
+func (d *StatelessDecryptor) VerifTryDecryptAt(ciphertext []byte, now time.Time) error {
+	_, _, err := d.tryDecryptAt(ciphertext, nil, now)
+	return err
+}
+
+// VerifCacheState returns (createTime, epoch) of the cached entry, ok=false if none.
+func VerifCacheState(password string) (time.Time, int64, bool) {
+	c, ok := blockCipherCache.Load(password)
+	if !ok {
+		return time.Time{}, 0, false
+	}
+	e := c.(*cachedCiphers)
+	return e.createTime, e.epoch, true
 }
